@@ -78,6 +78,7 @@ EXPECTED = [
     'C06:bounded:tv:cnl_mu:scale-one-equals-unscaled',
     'C06:bounded:tv:get_mev_for_nested_mu:scale-one-equals-unscaled',
     'C06:bounded:tv:cnl-with-0-1-allocations-equals-nested',
+    'C06:bounded:tv:cnl-with-0-1-allocations-given-as-parameters-equals-nested',
     'C06:bounded:tv:cnlmu-with-0-1-allocations-equals-nested_mev_mu',
     'C06:bounded:tv:cnl-with-explicit-zero-allocations-equals-nested',
     'C06:bounded:tv:cnlmu-with-explicit-zero-allocations-equals-nested_mev_mu',
